@@ -1,15 +1,15 @@
 /-
 C02 — Session setup carries the request faithfully and mirrors the decision.
 
-Proved on the header maps both sides compute (the wire form between them — QPACK static /
-literal representations, Huffman, HEADERS frame — is covered by the correspondence runs and by
-`Props/C14`/`C16`; the field-section round trip as a theorem is work in progress, see DESIGN):
+Proved on the header maps both sides compute and through the wire form between them (sorted
+map → QPACK static / name-reference / literal lines, Huffman or raw strings → decoded map):
 the request the server admits is the one the client built from the URL parts and the extra
 fields; the client's verdict is a function of the status alone; both sides name the session by
 the CONNECT stream's id.
 -/
 import WtVerif.Props.C18
 import WtVerif.Props.C17
+import WtVerif.Lemmas.Wire
 
 namespace Props.C02
 open Session
@@ -40,6 +40,38 @@ theorem request_seen_exactly (authority path : Bytes) (query : Option Bytes) :
   have h := Props.C18.authority_path_exact authority path query
   obtain ⟨r, hr⟩ := (Props.C18.admitted_iff _).2 ⟨h.2.2.1, h.2.2.2.1, h.2.2.2.2, by rw [h.1]; rfl, by rw [h.2.1]; rfl⟩
   rw [hr, Props.C18.admitted_unchanged _ _ hr]
+
+
+/-- **The request survives the wire**: for every header map of Rust strings the client may
+hold (distinct names by construction of a map) that is an admissible request, the server's
+worker, given the HEADERS payload the client generated, hands the application a session
+request holding the same value under every name — authority, path, every extra field. -/
+theorem request_survives_wire (h : Headers) (hnd : (h.map (·.1)).Nodup) (ht : Headers.Texts h)
+    (hadm : ∃ r, requestTryFrom h = .ok r) :
+    ∃ h', admitRequest (Headers.encode h) = .session h' ∧ h'.Perm h ∧
+      ∀ k, Headers.get h' k = Headers.get h k := by
+  obtain ⟨h', hw, hp, hg⟩ := Headers.wire_roundtrip h hnd ht
+  have hadm' : ∃ r, requestTryFrom h' = .ok r := by
+    rw [Props.C18.admitted_iff] at hadm ⊢
+    simpa only [hg] using hadm
+  obtain ⟨r, hr⟩ := hadm'
+  have := Props.C18.admitted_unchanged h' r hr
+  subst this
+  exact ⟨r, by unfold admitRequest; rw [hw]; simp only [hr], hp, hg⟩
+
+/-- **The response survives the wire**: the client's verdict on the payload the server
+generated from any response map is the verdict of that map's `:status` — established iff 2xx,
+rejected iff any other valid status — whatever other fields the map holds. -/
+theorem response_survives_wire (h : Headers) (hnd : (h.map (·.1)).Nodup) (ht : Headers.Texts h)
+    (c : Nat) (hc : responseTryFrom h = .ok c) :
+    clientVerdict (Headers.encode h) = if Ids.isSuccessful c then .established else .rejected := by
+  obtain ⟨h', hw, _, hg⟩ := Headers.wire_roundtrip h hnd ht
+  have : responseTryFrom h' = .ok c := by
+    unfold responseTryFrom at hc ⊢
+    rw [hg]; exact hc
+  unfold clientVerdict
+  rw [hw]
+  simp only [this]
 
 /-- decimal text of a status code parses back to the code (all 500 codes) -/
 theorem status_text_roundtrip :
@@ -91,5 +123,13 @@ a valid session id because the client opened it as a bidirectional stream (QUIC 
 theorem session_id_agree (n : Nat) (hn : n < 2^60) :
     Ids.sessionIdTry (4 * n) = some (4 * n) :=
   (Ids.sessionIdTry_some_iff _).2 (by omega)
+
+/-! ### non-vacuity -/
+
+/-- the request `connect("https://a/b?c")` builds meets every hypothesis of `request_survives_wire` -/
+example : let h := requestNew [97] [47, 98] (some [99])
+    (h.map (·.1)).Nodup ∧ (∃ r, requestTryFrom h = .ok r) ∧
+    h.all (fun f => Utf8.valid f.1 && Utf8.valid f.2) = true := by
+  refine ⟨by decide, ⟨_, request_seen_exactly _ _ _⟩, by decide⟩
 
 end Props.C02
